@@ -26,6 +26,7 @@ FAMILIES = {
     "Gen": ("MC_Gen", "MC_Gen.cfg"),
     "Interp": ("MC_Interp", "MC_Interp.cfg"),
     "Fp": ("MC_Fp", "MC_Fp.cfg"),
+    "Ex": ("MC_Ex", "MC_Ex.cfg"),
 }
 FP_SOURCES = ["vh_main.cpp", "vh_fp.cpp"]
 OPS_SOURCES = EXACT_SOURCES + ["vh_ops.cpp"]
@@ -35,6 +36,9 @@ def build_family(family, variant, cases_path, subset_lines=None):
     """The exact-scalar harness for a family.  Operator expressions are C++
     template instantiations: for the Ops family the generated translation
     units (one struct per AST TLC enumerated) are part of the build."""
+    if family == "Ex":
+        ex = [os.path.join(vlib.REPO, "examples", f) for f in ("diffusion.cpp", "spline-potential.cpp", "harmonic-oscillator.cpp", "hydrogen.cpp")]
+        return vlib.build(variant, ["vh_main.cpp", "vh_ex.cpp"], name="vh_ex", gen_sources=ex, libs=["-pthread"])
     if family not in ("Ops", "Fp"):
         return vlib.build(variant, EXACT_SOURCES)
     import gen_expr
@@ -59,6 +63,8 @@ def nontrivial(c):
     def iv(s):
         return isinstance(s, dict) and s.get("e", 0) - s.get("s", 0) >= 2
 
+    if op == "ExDiffusion":
+        return len(c["pts"]) >= 3
     if op in ("FpEval", "FpApply"):
         return iv(c["a"])
     if op in ("FpBin", "FpBF", "FpInt"):
@@ -90,14 +96,14 @@ def case_key(c):
     def w(s):
         return (s.get("s"), s.get("e"), s.get("o"), len(s.get("g", []))) if isinstance(s, dict) else None
     return json.dumps([c.get("op"), w(c.get("a")), w(c.get("b")), w(c.get("c")), c.get("share"), c.get("top"), c.get("i"),
-                       c.get("n"), c.get("w"), c.get("order"), c.get("bcs"), c.get("dflt"), len(c.get("y", [])) if isinstance(c.get("y"), list) else None, c.get("x") if c.get("op") == "Interp" else None, c.get("ast"), c.get("e1"), c.get("e2"), c.get("knots"), c.get("p"), c.get("route"), c.get("grid") if c.get("op") == "Gen" else None, [w(f) for f in c.get("fs", [])] if isinstance(c.get("fs"), list) else None])
+                       c.get("pts") if c.get("op", "").startswith("Ex") else None, c.get("D"), c.get("start"), c.get("shift"), str(c.get("vals"))[:80] if c.get("op") == "ExPotential" else None, c.get("n"), c.get("w"), c.get("order"), c.get("bcs"), c.get("dflt"), len(c.get("y", [])) if isinstance(c.get("y"), list) else None, c.get("x") if c.get("op") == "Interp" else None, c.get("ast"), c.get("e1"), c.get("e2"), c.get("knots"), c.get("p"), c.get("route"), c.get("grid") if c.get("op") == "Gen" else None, [w(f) for f in c.get("fs", [])] if isinstance(c.get("fs"), list) else None])
 
 
 class Ctx:
     def __init__(self, prop, tier, seed):
         self.prop, self.tier, self.seed = prop, tier, seed
         self.t0 = time.time()
-        self.work = vlib.ensure(os.path.join(vlib.WORK, prop + "-" + tier))
+        self.work = vlib.ensure(os.path.join(vlib.WORK, "%s-%s-%d" % (prop, tier, os.getpid())))
         self.violations = []      # (case, event, note)
         self.known = []
         self.cov = collections.OrderedDict(states=0, transitions=0, traces_validated_against_impl=0, evaluations=0,
@@ -373,6 +379,8 @@ def c11(ctx):
 
 def c03(ctx):
     stateless(ctx, "Spl", {"SplUn", "SplBin", "SplLin", "SplNew"}, case_filter=lambda c: same_grid(c))
+    # sequences of in-place updates applied to one object
+    lifecycle(ctx, "C03", variants=("exact",), bfs=False)
 
 
 def same_grid(c):
@@ -446,6 +454,119 @@ def c17(ctx):
     fp_family(ctx, {"FpInt"}, ("fp",) if quick else ("fp", "fp_checks", "fp_O0", "fp_O3"))
 
 
+def c18(ctx):
+    """(1) TLC explores every interleaving of the Sharing model (safety,
+    determinism, termination under weak fairness) and must REJECT the three
+    negative controls.  (2) TLC-generated cases are run by N threads at the
+    same time on shared const operand/operator/form objects: per-thread logs
+    must be identical to the sequential log (exact scalar: text; double: bit
+    patterns), the sequential and thread logs are validated by TLC against
+    the sequential contracts, grid use counts at the quiescent point must
+    match the number of live handles, and the TSan build observes races."""
+    import zlib
+    quick = ctx.tier == "quick"
+    wd = vlib.ensure(os.path.join(ctx.work, "sharing"))
+    base = {"NT": "2" if quick else "3"}
+    r = vlib.run_tlc("MC_Sharing", vlib.cfg_text("MC_Sharing.cfg", base), os.path.join(wd, "m"), timeout=3000, xmx="16g")
+    if r["violated"] or not r["completed"] or r["errors"]:
+        ctx.violations.append(({"op": "SharingModel"}, {"violated": r["violated"], "errors": r["errors"][:3]},
+                               "the sharing protocol model violates its own properties"))
+    ctx.cov["states"] += r["distinct"]
+    ctx.cov["transitions"] += r["generated"]
+    ctx.cov["tlc_runs"].append({"spec": "MC_Sharing", "states": r["distinct"], "transitions": r["generated"], "tlc_wall_s": round(r["wall"], 1), "consts": base})
+    for nc in ("AtomicCount", "GuardedStatic", "LocalScratch"):
+        c = dict(base)
+        c["NT"] = "2"
+        c[nc] = "FALSE"
+        rn = vlib.run_tlc("MC_Sharing", vlib.cfg_text("MC_Sharing.cfg", c), os.path.join(wd, "n" + nc), timeout=1200)
+        if not rn["violated"] and not any("Temporal" in e or "violated" in e for e in rn["errors"]):
+            raise MachineryFailure("negative control %s=FALSE was not rejected by TLC: the Sharing properties are vacuous" % nc)
+        ctx.cov["tlc_runs"].append({"spec": "MC_Sharing", "negative_control": nc, "rejected_by": rn["violated"]})
+
+    pick = lambda c, m: zlib.crc32(json.dumps(c, sort_keys=True).encode()) % m == 0
+    fams = []
+    mc, cfg = FAMILIES["Spl"]
+    cp, st = vlib.gen(mc, cfg, ctx.consts(), ctx.tier)
+    lines = [l for l in open(cp).read().splitlines() if (lambda c: c["op"] in ("SplEval", "SplUn", "SplBin") and same_grid(c) and pick(c, 40 if quick else 8))(json.loads(l))]
+    fams.append(("Spl", cp, lines))
+    mc, cfg = FAMILIES["Ops"]
+    cp, st = vlib.gen(mc, cfg, ctx.consts(), ctx.tier)
+    def opsel(c):
+        if c["tag"] == "foreign":
+            return False
+        if c["op"] == "OpApply":
+            return c["ast"]["k"] in ("Spl", "Prod", "Sum", "X", "Dx") and pick(c, 6 if quick else 2)
+        return pick(c, 40 if quick else 10)
+    lines = [l for l in open(cp).read().splitlines() if opsel(json.loads(l))]
+    fams.append(("Ops", cp, lines))
+    counts = (2, 8) if quick else (2, 4, 8, 16)
+    rounds = 1 if quick else 3
+    for fam, cp, lines in fams:
+        for variant in ("exact_thr", "exactd", "tsan", "tsand"):
+            if quick and variant == "tsand":
+                continue
+            binp = build_family(fam, variant, cp, lines)
+            for nt in counts:
+                for rd in range(rounds):
+                    seq, ths, q, rc, err = vlib.exec_threaded(binp, lines, os.path.join(wd, "x"), nt)
+                    tag = {"op": "ThreadedRun", "family": fam, "variant": variant, "threads": nt}
+                    if rc != 0 or "ThreadSanitizer" in err:
+                        ctx.violations.append((tag, {"rc": rc, "report": err[-3000:]}, "threaded run failed / data race reported"))
+                        continue
+                    if len(seq) != len(lines) or any(len(t) != len(lines) for t in ths):
+                        raise MachineryFailure("threaded harness produced incomplete logs")
+                    for t, tl in enumerate(ths):
+                        diff = [i for i in range(len(lines)) if tl[i] != seq[i]]
+                        if diff:
+                            ctx.violations.append((dict(tag, thread=t, case=json.loads(lines[diff[0]])), {"sequential": seq[diff[0]][:1500], "threaded": tl[diff[0]][:1500]},
+                                                   "%d results of thread %d differ from the sequential run" % (len(diff), t)))
+                    if q is None or any(a != b for a, b in q):
+                        ctx.violations.append((tag, {"quiescent": q}, "use_count of a shared grid block differs from the number of live handles at the quiescent point"))
+                    ctx.cov["evaluations"] += len(lines) * nt
+                    ctx.cov.setdefault("threaded_runs", []).append({"family": fam, "variant": variant, "threads": nt, "cases": len(lines)})
+                    if variant == "exact_thr" and rd == 0 and nt == counts[-1]:
+                        # TLC judges the sequential log and the logs of two threads against the sequential contracts
+                        for name, evs in (("seq", seq), ("t0", ths[0]), ("tlast", ths[-1])):
+                            rej, n = vlib.validate("Trace_Stateless", "Trace_Stateless.cfg", {"PROP": "ALL"}, evs, os.path.join(wd, "val"))
+                            ctx.cov["traces_validated_against_impl"] += n
+                            for i in sorted(rej)[:5]:
+                                ctx.violations.append((json.loads(lines[i]), json.loads(evs[i]), "event of log %s (threaded run) rejected by the specification" % name))
+        for l in lines:
+            c = json.loads(l)
+            ctx.cov["per_action"][c["op"]] = ctx.cov["per_action"].get(c["op"], 0) + 1
+            if nontrivial(c):
+                ctx.keys.add(case_key(c))
+        if len(ctx.cov["samples"]) < 3:
+            ctx.cov["samples"].append({"case": json.loads(lines[0]), "threads": list(counts)})
+    ctx.assumptions.append("all interleavings are explored in the Sharing model; on the code only the schedules that happen are observed, and a data race is detected by ThreadSanitizer, not by TLC")
+
+
+def c20(ctx):
+    """(a) TLC checks the diffusion solver's skeleton against std::vector's
+    preconditions (and must reject the pinned erase(end())); (b) the
+    repository's own example objects run TLC-enumerated admissible inputs in a
+    plain build and under ASan/UBSan/_GLIBCXX_DEBUG; the contracts of the
+    entry points are evaluated with a tolerance and judged per event."""
+    wd = vlib.ensure(os.path.join(ctx.work, "examples"))
+    r = vlib.run_tlc("Examples", vlib.cfg_text("Examples.cfg", {}), os.path.join(wd, "m"), workers=4, timeout=600)
+    if r["violated"] or r["errors"] or not r["completed"]:
+        ctx.violations.append(({"op": "ExamplesModel"}, {"violated": r["violated"], "errors": r["errors"][:3]}, "the diffusion skeleton violates a std::vector precondition"))
+    ctx.cov["states"] += r["distinct"]
+    ctx.cov["transitions"] += r["generated"]
+    ctx.cov["tlc_runs"].append({"spec": "Examples", "states": r["distinct"], "transitions": r["generated"]})
+    rn = vlib.run_tlc("Examples", vlib.cfg_text("Examples.cfg", {"Bug_EraseEnd": "TRUE"}), os.path.join(wd, "n"), workers=4, timeout=600)
+    if "NoUB" not in rn["violated"]:
+        raise MachineryFailure("the regression configuration Bug_EraseEnd=TRUE was not rejected: NoUB is vacuous")
+    ctx.cov["tlc_runs"].append({"spec": "Examples", "negative_control": "Bug_EraseEnd", "rejected_by": rn["violated"]})
+    for variant in ("ex", "ex_san"):
+        stateless(ctx, "Ex", {"ExDiffusion", "ExPotential", "ExOscillator", "ExHydrogen"}, variant=variant)
+    ctx.cov["explanation"] = ("TLC checked the std::vector preconditions of the diffusion solver's skeleton for every basis size 2..12 (and rejected the pinned "
+                              "erase(end()) variant); the repository's example translation units were run on TLC-enumerated admissible inputs in a plain and an "
+                              "ASan/UBSan/_GLIBCXX_DEBUG build; boundary values, scale invariance, straight line, eigenvalue shift, n+1/2 and -1/n^2 were "
+                              "compared with tolerance 1e-8 (relative to max(1,|values|)) resp. 1e-10")
+    ctx.assumptions.append("order-10 double/Eigen numerics are not modelled in TLC: the numeric half is conformance against the contract under a tolerance; UB is observed by sanitizers")
+
+
 def c19(ctx):
     """The exact-archetype build is the check: harness/c19_inst.cpp explicitly
     instantiates / uses every core template and the generic interpolate with
@@ -492,7 +613,9 @@ PROPS = {
     "C14": dict(fn=c14, level="model_checking"),
     "C16": dict(fn=c16, level="exploration"),
     "C17": dict(fn=c17, level="exploration"),
+    "C18": dict(fn=c18, level="model_checking"),
     "C19": dict(fn=c19, level="other"),
+    "C20": dict(fn=c20, level="other"),
     "C01": dict(fn=c01, level="model_checking"),
     "C04": dict(fn=c04, level="model_checking"),
     "C05": dict(fn=c05, level="model_checking"),
@@ -515,6 +638,8 @@ ASSUME_COMMON = [
 
 def finish(ctx, level):
     ctx.cov["distinct_nontrivial"] = len(ctx.keys)
+    if not ctx.cov["samples"]:
+        ctx.cov["samples"].append({"note": "no case was executed", "violations": [n for _, _, n in ctx.violations][:3]})
     ctx.cov["rule"] = ("cases are enumerated exhaustively by TLC from the bounded domains of spec/Domains.tla "
                        "(one case per explored transition of the MC_* specification); distinct_nontrivial counts distinct "
                        "(action, window placement of each operand, orders, grid size, index argument) classes among cases "
@@ -546,6 +671,7 @@ def main():
         print("unknown property", a.prop)
         return 2
     ctx = Ctx(a.prop, a.tier, seed)
+    import shutil
     try:
         if a.replay:
             return replay(ctx, a.replay)
@@ -557,6 +683,8 @@ def main():
     except MachineryFailure as e:
         log("MACHINERY FAILURE: %s" % e)
         return 2
+    finally:
+        shutil.rmtree(ctx.work, ignore_errors=True)
 
 
 def replay(ctx, path):
